@@ -376,6 +376,8 @@ pub struct Inst {
     pub req_ids: HashMap<Vec<u8>, usize>,
     pub api: Vec<(usize, tokio::task::JoinHandle<String>)>,
     pub query: Option<tokio::task::JoinHandle<String>>,
+    /// number of nodes the running lookup was asked for (predicate lookups)
+    pub query_k: Option<usize>,
     pub prev: BTreeMap<usize, SnapBucket>,
     /// the harness's own ledger of eligible latest IP votes (C17)
     pub votes4: HashMap<[u8; 32], SocketAddr>,
@@ -450,6 +452,7 @@ impl Inst {
             hout,
             events,
             events_paused: false,
+            query_k: None,
             ip_limit: seed % 1000 == 999,
             local_id,
             local_seed: seed,
@@ -997,6 +1000,13 @@ impl ServiceRunner {
                 if r == "err" || r == "panic" {
                     s.push_str(&format!("\n!MON C09 lookup-ended-without-handing-over-a-result outcome={}", r));
                 }
+                // C10: a lookup for at most k nodes returns at most k
+                if let (Some(k), Some(n)) = (inst.query_k, r.strip_prefix("ok:").and_then(|n| n.parse::<usize>().ok())) {
+                    if n > k {
+                        s.push_str(&format!("\n!MON C10 lookup-returned-more-than-asked-for got={} k={}", n, k));
+                    }
+                }
+                inst.query_k = None;
                 s.push_str(&format!("\n!INFO query-result {}", r));
             }
         }
@@ -1743,12 +1753,20 @@ impl Runner for ServiceRunner {
                 out.push(format!("!OP sfail {} r{}{}", x, k, sfx));
                 self.finish(x, "sfail", None, so, None, out, stats);
             }
-            ["squery", _, target] => {
+            // `squery X TARGET` plain lookup; `squery X TARGET K` predicate lookup (predicate: any
+            // record) for at most K nodes
+            ["squery", _, target, rest @ ..] => {
                 let Some(tg) = parse_peer(target) else { return noop(out) };
                 if self.insts[&x].query.is_some() {
                     return noop(out);
                 }
-                let fut = self.insts[&x].discv5.find_node(NodeId::new(&tg));
+                let k: Option<usize> = rest.first().and_then(|s| s.parse().ok());
+                let d = &self.insts[&x].discv5;
+                let fut: std::pin::Pin<Box<dyn std::future::Future<Output = Result<Vec<Enr>, discv5::QueryError>> + Send>> = match k {
+                    Some(k) => Box::pin(d.find_node_predicate(NodeId::new(&tg), Box::new(|_| true), k)),
+                    None => Box::pin(d.find_node(NodeId::new(&tg))),
+                };
+                if k.is_some() { stats.bump("s.predicate-queries"); }
                 let h = self.rt.as_ref().unwrap().spawn(async move {
                     match fut.await {
                         Ok(v) => format!("ok:{}", v.len()),
@@ -1756,6 +1774,7 @@ impl Runner for ServiceRunner {
                     }
                 });
                 self.insts.get_mut(&x).unwrap().query = Some(h);
+                self.insts.get_mut(&x).unwrap().query_k = k;
                 let so = self.observe(x, true, false);
                 stats.bump("s.queries");
                 for k in &so.new_reqs {
@@ -2222,7 +2241,7 @@ fn gen_c11(rng: &mut Rng, ops: &mut Vec<String>, stats: &mut Stats) {
                 };
                 stats.bump(&format!("gen.c11.class.{}", if d <= 2 { d.to_string() } else if d <= 245 { "3-245".into() } else { "246-256".into() }));
                 let tid = flip_target(&bid, d, rng);
-                ops.push(format!("squery A {}", hex::encode(tid)));
+                ops.push(format!("squery A {}{}", hex::encode(tid), match rng.below(6) { 0 => " 0", 1 => " 1", 2 => " 2", 3 => " 16", _ => "" }));
                 // the honest answer first or a malicious one in its place
                 match rng.below(8) {
                     0 => {
@@ -2554,7 +2573,7 @@ pub fn gen_case(rng: &mut Rng, tier: &str, profile: &str, stats: &mut Stats) -> 
         }
         for _ in 0..rng.range(1, 3) {
             let tid: Vec<u8> = rng.bytes(32);
-            ops.push(format!("squery A {}", hex::encode(tid)));
+            ops.push(format!("squery A {}{}", hex::encode(tid), match rng.below(6) { 0 => " 0", 1 => " 1", 2 => " 2", 3 => " 16", _ => "" }));
             let all_fail = rng.chance(2, 3);
             for _ in 0..(npeers * 2 + 4) {
                 if all_fail || rng.chance(2, 3) {
